@@ -1,5 +1,5 @@
 ------------------------------ MODULE AtomicDur ------------------------------
-(* DRAFT.  src/sync/atomic_dur.rs: Option<Duration> stored as whole milliseconds, 0 = None.
+(* src/sync/atomic_dur.rs: Option<Duration> stored as whole milliseconds, 0 = None.
    d is the requested time-out in nanoseconds (Some(d)); the question is what take()/get()
    hand to the timer.  Ceil = FALSE is the code as written (as_millis() truncates). *)
 EXTENDS Integers
